@@ -44,7 +44,7 @@ func (p *recPS) AddPeer(ih peer_store.InfoHash, na krpc.NodeAddr) {
 	p.inner.AddPeer(ih, na)
 }
 func (p *recPS) GetPeers(ih peer_store.InfoHash) []krpc.NodeAddr { return p.inner.GetPeers(ih) }
-func (p *recPS) n() int                                           { p.mu.Lock(); defer p.mu.Unlock(); return len(p.adds) }
+func (p *recPS) n() int                                          { p.mu.Lock(); defer p.mu.Unlock(); return len(p.adds) }
 
 // recording BEP 44 store
 type recStore struct {
@@ -100,6 +100,7 @@ func (s *recStore) Del(t bep44.Target) error {
 	s.mu.Unlock()
 	return s.inner.Del(t)
 }
+
 const delMark = int64(-1 << 62)
 
 func (s *recStore) nputs() int { s.mu.Lock(); defer s.mu.Unlock(); return len(s.puts) }
@@ -401,6 +402,12 @@ func c11(r *Run) {
 				return
 			}
 			a := benc.Dict{{K: "id", V: string(id[:])}, {K: "info_hash", V: string(ih[:])}, {K: "token", V: tok}}
+			if ch.Chance(1, 4, "ann.decoy") {
+				// an extra key the method does not read (another known infohash): must not redirect the announce
+				dec := ihs[ch.Intn(nih, "ann.decoy.ih")]
+				a = a.Set("target", string(dec[:]))
+				r.Probe("decoy-target-key")
+			}
 			port := 1 + r.Rng.Intn(65535)
 			implied := false
 			switch ch.Intn(3, "portmode") {
@@ -442,6 +449,11 @@ func c11(r *Run) {
 			}
 			src := r.Addr(f)
 			a := benc.Dict{{K: "id", V: string(id[:])}, {K: "info_hash", V: string(ih[:])}}
+			if ch.Chance(1, 4, "gp.decoy") {
+				dec := ihs[ch.Intn(nih, "gp.decoy.ih")]
+				a = a.Set("target", string(dec[:]))
+				r.Probe("decoy-target-key")
+			}
 			var wants []string
 			explicit := false
 			switch ch.Intn(6, "want") {
